@@ -900,6 +900,7 @@ impl<T: RecognizerReadable> RecognizerReadable for Option<T> {
 
 pub struct EmptyBodyRecognizer<T> {
     seen_start: bool,
+    seen_extant: bool,
     _type: PhantomData<fn() -> Option<T>>,
 }
 
@@ -907,6 +908,7 @@ impl<T> Default for EmptyBodyRecognizer<T> {
     fn default() -> Self {
         EmptyBodyRecognizer {
             seen_start: false,
+            seen_extant: false,
             _type: PhantomData,
         }
     }
@@ -919,6 +921,10 @@ impl<T> Recognizer for EmptyBodyRecognizer<T> {
         if self.seen_start {
             if matches!(input, ReadEvent::EndRecord) {
                 Some(Ok(None))
+            } else if !self.seen_extant && matches!(input, ReadEvent::Extant) {
+                // `None` delegated as a body is written as the single item `Extant`.
+                self.seen_extant = true;
+                None
             } else {
                 Some(Err(input.kind_error(ExpectedEvent::EndOfRecord)))
             }
@@ -932,6 +938,7 @@ impl<T> Recognizer for EmptyBodyRecognizer<T> {
 
     fn reset(&mut self) {
         self.seen_start = false;
+        self.seen_extant = false;
     }
 }
 
